@@ -797,6 +797,23 @@ func (in *Interp) step(g *G) {
 			in.goPanic(g, "nil pointer dereference (field "+ins.X.Type().String()+")")
 			return
 		}
+		if cell := p.R.(*Value); cell.K == KOpaque {
+			if k, isKey := cell.R.(*keySt); isKey {
+				// a parsed public key (btcec.PublicKey = {Curve, X, Y}): its coordinates are opaque big integers
+				st := ins.X.Type().Underlying().(*types.Pointer).Elem().Underlying().(*types.Struct)
+				name := st.Field(ins.Field).Name()
+				if name == "X" || name == "Y" {
+					coord := &Value{K: KPtr, R: &Value{K: KOpaque, R: &bigCoord{k: k.id, which: name}}}
+					if in.roCells == nil {
+						in.roCells = map[*Value]bool{}
+					}
+					in.roCells[coord] = true
+					in.set(fr, ins, Value{K: KPtr, R: coord})
+					return
+				}
+				unsupported("field %s of a parsed public key", name)
+			}
+		}
 		in.set(fr, ins, Value{K: KPtr, R: &(p.R.(*Value).R.([]Value)[ins.Field])})
 	case *ssa.Field:
 		in.set(fr, ins, in.get(fr, ins.X).R.([]Value)[ins.Field])
